@@ -35,7 +35,7 @@ func init() {
 		Rule: "case = generated endorsement request (image 64 KiB..2 MiB, technology subset, explicit / default / non-GCE VMSA count, product, machine-shape list with and without early accept incl. unknown shape names, SVN, family/image IDs, SVSM measurement, changelist/commit, timestamp) run through endorse.GoldenMeasurement and, with a bootstrapped authority, endorse.SignDoc. " +
 			"Every field of the message and of the re-parsed signed payload is compared with an independent recomputation: sha384(image); SNP table keys == requested set (own list of the 15 GCE counts) and each value == the snpref digest; TDX rows == per shape (ram, legacy[, legacy-early]) + default row with each MRTD == the tdxref value; SVN, IDs, policy, SVSM, provenance, certificate, bundle, timestamp. " +
 			"A request naming a configuration that cannot be measured (unknown shape, image without valid TDX or SNP metadata) must fail instead of producing placeholder entries. " +
-			"Appended families, judged by the same rules: sequences (one request value and one keys context through 3..6 calls with fields edited in place: same image under another configuration, caller scribbling over the previous result, failing call repaired and retried, signing fault then retry under a later timestamp); concurrent (4..8 independent requests, some unmeasurable, measured and signed at once, two rounds); values (8/16/32/64-bit limits of SVN and changelist, commit / SVSM lengths, nil vs empty, UUID spellings, 4..6 shapes, VMSA counts around 255, time zones and timestamp range ends); command (the shipped endorse command over files: SVN side files under both names and in non-canonical protobuf encodings, SVSM measurement files, flag spellings, explicit defaults, flags of a technology that is not added, image behind a symlink / on a pipe; the written endorsement is parsed back). " +
+			"Appended families, judged by the same rules: sequences (one request value and one keys context through 3..6 calls with fields edited in place: same image under another configuration, caller scribbling over the previous result, failing call repaired and retried, signing fault then retry under a later timestamp); concurrent (4..8 independent requests, some unmeasurable, measured and signed at once, two rounds); values (8/16/32/64-bit limits of SVN and changelist, commit / SVSM lengths, nil vs empty, UUID spellings, 4..6 shapes, VMSA counts around 255, time zones and timestamp range ends); command (the shipped endorse command over files: SVN side files under both names and in non-canonical protobuf encodings, SVSM measurement files, flag spellings, explicit defaults, flags of a technology that is not added, image behind a symlink / on a pipe; the written endorsement is parsed back); layouts (SEV-SNP metadata with sections of every kind incl. secrets, CPUID and SVSM calling area spanning 1..16 pages, gaps, low/high regions, any order, reset block anywhere; library and command); ids (legal requested values that coincide with another representation's \"not set\": nil / all-ones UUID, the GCE family id spelled out, family == image, non-v4 UUIDs, respelled nil UUID, all-zero SVSM measurement / commit; one call, on a request an earlier call completed in place, cleared again afterwards, through the command's flags; always judged against a copy of the request taken before the call). " +
 			"non-trivial = distinct (request shape, field group, outcome) cells",
 		Assumptions: []string{"snpref (C04) and tdxref (C05) are the independent measurement models; their agreement with the code on accepted images is itself checked by C04/C05",
 			"the default family id is the repository's documented GCE constant; a missing image id must come back as a random version-4 UUID"},
